@@ -19,8 +19,8 @@ func flattenCase(g *Gen, o flatOpts, plus bool, repeats, permutes int, faults bo
 	// KeepNames applies to single-document bundles: decided first, so that half of them use plain names only
 	keep := !o.Expand && g.p(0.2)
 	bo := BundleOpts{Plus: plus, AnonOK: anon, SharedOK: anon && !o.RemoveUnused, MaxAux: 3}
-	if !keep && g.p(0.3) {
-		bo.Scenario = g.pick([]string{"collide-pointer", "collide-many", "unused-chain"})
+	if !keep && !plus && g.p(0.3) {
+		bo.Scenario = g.pick([]string{"collide-pointer", "collide-many", "collide-nested", "unused-chain", "expand-via-response"})
 		if !anon && bo.Scenario == "collide-pointer" {
 			bo.Scenario = "collide-many"
 		}
@@ -39,7 +39,7 @@ func flattenCase(g *Gen, o flatOpts, plus bool, repeats, permutes int, faults bo
 	for k, v := range b.Aux {
 		aux[k] = v
 	}
-	return M{"bundle": M{"root": b.Root, "aux": aux}, "opts": o.toJSON(), "repeats": repeats, "permutes": permutes, "faults": faults, "plainNames": bo.Plain}
+	return M{"bundle": M{"root": b.Root, "aux": aux}, "opts": o.toJSON(), "repeats": repeats, "permutes": permutes, "faults": faults, "plainNames": bo.Plain, "mustFail": b.MustFail, "plus": plus, "plusWhat": strings.Join(b.Plus, "+")}
 }
 
 // which Go-side clauses each property looks at
@@ -47,6 +47,27 @@ func flattenFindings(c *Case, cyclic bool) []Finding {
 	var fs []Finding
 	o := optsOf(get(c.In, "opts"))
 	sig := func(s string) string { return "flatten:" + s + ":" + o.String() }
+	if plus, _ := get(c.In, "plus").(bool); plus {
+		// W+: the signature names the planted constructs instead of the option set, so that a listed finding stays specific
+		what, _ := get(c.In, "plusWhat").(string)
+		sig = func(s string) string {
+			class := s
+			if i := strings.Index(s, ":"); i > 0 {
+				class = s[:i]
+			}
+			switch {
+			case o.KeepNames:
+				return "flatten:keepNames-created-names"
+			case (class == "crash" || class == "hang") && strings.Contains(what, "aux-back-to-root"):
+				return "flattenPlus:crash:aux-back-to-root"
+			case (class == "fault-swallowed" || class == "fault-panic") && strings.Contains(what, "aux-back-to-root"):
+				return "flattenPlus:aux-back-to-root:" + class
+			case o.Expand && strings.Contains(what, "pointer-") && (class == "fault-panic" || class == "fault-swallowed" || class == "unresolved-ref-swallowed" || class == "panic"):
+				return "flattenPlus:expand-with-anonymous-pointers:" + class
+			}
+			return "flattenPlus:" + s + ":" + what
+		}
+	}
 	switch outcomeTag(c.Impl) {
 	case "timeout":
 		if ctxProp == "C09" || ctxProp == "C04" || ctxProp == "" {
@@ -62,9 +83,26 @@ func flattenFindings(c *Case, cyclic bool) []Finding {
 		return nil
 	}
 	r := get(c.Impl, "ok")
+	if plus, _ := get(c.In, "plus").(bool); plus {
+		if p := get(r, "panic"); p != nil {
+			return []Finding{{Kind: "property", Detail: fmt.Sprintf("Flatten (%s) panics on a loadable bundle of W+: %v at %v", o, p, get(r, "panicStack")), Signature: sig("panic")}}
+		}
+		if mf, _ := get(c.In, "mustFail").(bool); mf && get(r, "flattenErr") == nil {
+			return []Finding{{Kind: "property", Detail: fmt.Sprintf("Flatten (%s) reports success although a $ref of the bundle cannot be resolved", o), Signature: sig("unresolved-ref-swallowed")}}
+		}
+		for _, e := range asList(get(r, "faults")) {
+			if p := get(e, "panic"); p != nil {
+				return []Finding{{Kind: "property", Detail: fmt.Sprintf("Flatten (%s) panics when document load #%v fails: %v", o, get(e, "k"), p), Signature: sig("fault-panic")}}
+			}
+			if s, _ := get(e, "reportedSuccess").(bool); s {
+				return []Finding{{Kind: "property", Detail: fmt.Sprintf("Flatten (%s) reports success although document load #%v failed", o, get(e, "k")), Signature: sig("fault-swallowed")}}
+			}
+		}
+		return nil
+	}
 	if p := get(r, "panic"); p != nil {
 		if ctxProp == "C09" || ctxProp == "C04" || ctxProp == "" {
-			fs = append(fs, Finding{Kind: "property", Detail: fmt.Sprintf("Flatten (%s) panics: %v", o, p), Signature: sig("panic")})
+			fs = append(fs, Finding{Kind: "property", Detail: fmt.Sprintf("Flatten (%s) panics: %v at %v", o, p, get(r, "panicStack")), Signature: sig("panic")})
 		}
 		return fs
 	}
@@ -73,6 +111,15 @@ func flattenFindings(c *Case, cyclic bool) []Finding {
 			fs = append(fs, Finding{Kind: "property", Detail: fmt.Sprintf("Flatten (%s) rejects a well-formed bundle: %v", o, e), Signature: sig("error:" + errClass(fmt.Sprint(e)))})
 		}
 		return fs
+	}
+	if ctxProp == "C04" || ctxProp == "" {
+		reps, _ := get(r, "repeats").([]any)
+		for _, e := range reps {
+			if msg := get(e, "err"); msg != nil {
+				fs = append(fs, Finding{Kind: "property", Detail: fmt.Sprintf("Flatten (%s) rejects a well-formed bundle on a repeated run: %v", o, msg), Signature: sig("error-on-repeat:" + errClass(fmt.Sprint(msg)))})
+				break
+			}
+		}
 	}
 	if ctxProp == "C10" || ctxProp == "" {
 		if p := get(r, "syncPanic"); p != nil {
@@ -246,3 +293,5 @@ func flattenLeanFindings(c *Case, v any) []Finding {
 	}
 	return fs
 }
+
+func asList(v any) []any { l, _ := v.([]any); return l }
